@@ -4,7 +4,7 @@
    of coq/C04/Spec.v.  Proofs are in coq/C04/Proofs*.v; nothing here but statements.
    Every theorem is for ALL configurations (any number and kind of processors), all start options and
    ALL sequences of operations (incl. operations after End and further Ends). *)
-From V Require Import C04.Glue C04.ProofsMap C04.ProofsStep C04.ProofsMeets C04.ProofsHeap C04.ProofsProps C04.ProofsWire C04.ProofsPar C04.ProofsRace C04.ProofsLts C04.ProofsLtsOrder C04.ProofsLtsRace C04.ProofsLtsCut C04.ProofsLtsHist.
+From V Require Import C04.Glue C04.ProofsMap C04.ProofsStep C04.ProofsMeets C04.ProofsHeap C04.ProofsProps C04.ProofsWire C04.ProofsPar C04.ProofsRace C04.ProofsLts C04.ProofsLtsOrder C04.ProofsLtsRace C04.ProofsLtsCut C04.ProofsLtsRec C04.ProofsLtsHist.
 Local Open Scope Z_scope.
 
 (* --- sentence 1: what each configured processor's exporter receives.  The whole final state of a case:
@@ -256,37 +256,49 @@ Proof. exact ProofsLtsRace.accepted_trace_race_clauses_ab. Qed.
 Print Assumptions accepted_trace_race_clauses_ab.
 
 (* --- every accepted trace passes SpecRace's clause (c): the checker's search finds a cut - the End that took mu_ first, and
-   for every thread the calls that took mu_ before it - for which duration, name, status and attributes are as the clause
-   demands.  PARTIAL: proved for runs in which no thread adds events (the events part of the clause - count, order and
-   attribute maps of the exported events - is decided by the executable SPEC on the explored schedules only); the hypothesis
-   [complete_history] (exactly the scripted calls begin, all return, a thread's calls do not overlap) is what [history_ok]
-   checks on every run; clause (d) (the answers of IsRecording) is likewise left to the executable SPEC. *)
-Theorem accepted_trace_passes_cut_partial : forall (c : cfg aval) (s : start aval) (ths : list (list (op aval))) evs s' xe,
+   for every thread the calls that took mu_ before it - for which duration, name, status, attributes and events are as the clause
+   demands.  [complete_history]: exactly the scripted calls begin, all return, a thread's calls do not overlap (what [history_ok]
+   checks on every run, next theorem); [names_distinct]: the scripts' event names are pairwise distinct (checked by [parse_rcase],
+   [names_checked_distinct]) *)
+Theorem accepted_trace_passes_cut : forall (c : cfg aval) (s : start aval) (ths : list (list (op aval))) evs s' xe,
   replay (conv_threads ths) (linit (map_cfg conv c) (map_start conv s)) (fun _ => O) evs 0 = inl s' ->
   complete_history ths (hist_of evs) ->
   valid ths xe -> is_end (opa ths xe) = true ->
-  (forall x, valid ths x -> match opa ths x with Event _ _ _ => False | _ => True end) ->
+  names_distinct ths ->
   race_cut_exists (hist_of evs) s (number_threads 0 ths) (export (map_cfg conv c) (map_start conv s) (l_lin s')) = true.
-Proof. exact ProofsLtsCut.accepted_trace_passes_cut_partial. Qed.
-Print Assumptions accepted_trace_passes_cut_partial.
+Proof. exact ProofsLtsCut.accepted_trace_passes_cut. Qed.
+Print Assumptions accepted_trace_passes_cut.
 
-(* what [history_ok] checks on every SRACE run is that hypothesis *)
 Theorem history_ok_complete : forall (ths : list (list (op aval))) h,
   thread_hist_ok ths 0 h = true -> forallb (fun e => Nat.ltb (h_tid e) (List.length ths)) h = true ->
   complete_history ths h.
 Proof. exact ProofsLtsHist.history_ok_complete. Qed.
 Print Assumptions history_ok_complete.
 
+Theorem names_checked_distinct : forall ths : list (list (op aval)),
+  nodup_names (map (fun e => fst (fst e)) (events_of (List.concat ths))) = true -> names_distinct ths.
+Proof. exact ProofsLtsHist.names_checked_distinct. Qed.
+Print Assumptions names_checked_distinct.
+
+(* --- IsRecording: in an accepted trace the R event of an IsRecording call carries 1 exactly when no End precedes the call in
+   lock order ([flag]); clause (d) follows from the linearization *)
+Theorem isrecording_answers : forall ths c s0 evs s', c_sampled c = true ->
+  replay ths (linit c s0) (fun _ => O) evs 0 = inl s' ->
+  forall ev, In ev (hist_of evs) -> h_begin ev = false -> op_at ths (h_tid ev, h_idx ev) = IsRec ->
+  exists l1 l2, ids_of (fun _ => O) evs = (l1 ++ (h_tid ev, h_idx ev) :: l2)%list /\ h_res ev = flag ths l1.
+Proof. exact ProofsLtsRec.isrecording_answers. Qed.
+Print Assumptions isrecording_answers.
+
 (* --- ACCEPTED TRACE MEETS SPEC (race), as ./check composes it: an SRACE run whose logged trace the extracted acceptor accepts
-   (with mu_ free at the end and a well-formed call history) passes clauses (a), (b), (c) and the StartSpan / provider clauses of
-   SpecRace; what remains of [race_check] is clause (d).  PARTIAL: scripts without AddEvent (events clause), clause (d) open *)
-Theorem accepted_srace_run_meets_spec_partial : forall rc evs s',
+   passes EVERY clause of SpecRace - (a) End once, (b) identical copies, (c) a prefix-consistent cut, (d) IsRecording, and the
+   StartSpan / provider clauses.  All hypotheses are checked on every run: the span is sampled, [history_ok], mu_ free at the
+   end of the replay, distinct event names ([parse_rcase]) *)
+Theorem accepted_trace_meets_spec_race : forall rc evs s',
   c_sampled (rc_cfg rc) = true ->
   history_ok rc (hist_of evs) = true ->
   replay (race_lts_threads rc) (linit (map_cfg conv (rc_cfg rc)) (map_start conv (rc_start rc))) (fun _ => O) evs 0 = inl s' ->
   l_mu s' = None ->
-  (forall x, valid (race_threads rc) x -> match opa (race_threads rc) x with Event _ _ _ => False | _ => True end) ->
-  race_check (rc_cfg rc) (rc_start rc) (race_threads rc) (hist_of evs) (l_got s') =
-  check (isrec_ok (hist_of evs) (number_threads 0 (race_threads rc))) isrec_tag.
-Proof. exact ProofsLtsHist.accepted_srace_run_meets_spec_partial. Qed.
-Print Assumptions accepted_srace_run_meets_spec_partial.
+  nodup_names (map (fun e => fst (fst e)) (events_of (List.concat (rc_threads rc)))) = true ->
+  race_check (rc_cfg rc) (rc_start rc) (race_threads rc) (hist_of evs) (l_got s') = [].
+Proof. exact ProofsLtsHist.accepted_srace_run_meets_spec'. Qed.
+Print Assumptions accepted_trace_meets_spec_race.
